@@ -783,7 +783,7 @@ def rule_reset(ctx, px):
         for w_ in ast.walk(f.node):
             if not isinstance(w_, ast.With):
                 continue
-            opens_w = any(isinstance(it.context_expr, ast.Call) and ast.unparse(it.context_expr.func) == "open" and len(it.context_expr.args) >= 2
+            opens_w = any(isinstance(it.context_expr, ast.Call) and ast.unparse(it.context_expr.func) in ("open", "io.open", "os.fdopen") and len(it.context_expr.args) >= 2
                           and isinstance(it.context_expr.args[1], ast.Constant) and "w" in str(it.context_expr.args[1].value) for it in w_.items)
             if not opens_w:
                 continue
